@@ -1,6 +1,7 @@
 import OasisModel.Proto
 import OasisModel.Mkvs.Overlay
 import OasisModel.Mkvs.Key
+import OasisModel.Mkvs.Cache
 /-
 Driver for the MKVS model (mode `mkvs`, executable `om_mkvs`), used by harness/cmd/mkvsdrv for
 C02, C03 and C13.  Every line carries the operation *and* what the real tree answered; the model
@@ -30,6 +31,11 @@ write-log entries `k:v` / `k:~` (delete).
                                `NOTSERVED` is admissible only with `may` (H2 not finalized, or discarded);
                                for the finalized candidate (`must`) the log has to be served.
   wf                           model self-check: current trie is in canonical form
+  shape                        answers `ok h=<internal nodes on the longest path> internal=<internal nodes> keys=<n>`
+  needs                        from here on the answer `ok` to an operation that writes to the tree
+                               (insert/remove/remx at level 0, applywl, ocommit of an overlay directly on the
+                               tree) carries ` need=<n>`: the node-cache capacity that suffices for it on the
+                               tree it finds (`CacheNeed`, OasisModel/Mkvs/Cache.lean)
   ksplit K SP KL PRE SUF | kmerge K KL K2 K2L RES | kcpl K KL K2 K2L N | kappend K KL B RES | kgetbit K I B
                                node.Key byte-level operations: answers compared with the byte-level
                                transcription (`Key.*`) and with the bit-list operations
@@ -46,6 +52,7 @@ structure St where
   /-- `ocopy`: an isolated copy of the outermost overlay over the same inner handle. -/
   spare : Option Layer := none
   dead : Bool := false
+  needs : Bool := false
 
 def showOpt : Option Bytes → String
   | none => "nil"
@@ -94,7 +101,7 @@ def atLevel {α} (st : St) (lvl : Nat) (f : TreeState → List Layer → (TreeSt
   let r := f st.tree lower
   some ({ st with tree := r.1.1, layers := upper ++ r.1.2 }, r.2)
 
-def step (st : St) (line : String) : St × String :=
+def stepCore (st : St) (line : String) : St × String :=
   if st.dead then (st, "skip") else
   let fail (msg : String) : St × String := ({ st with dead := true }, "DIVERGE " ++ msg)
   let ws := words line
@@ -277,7 +284,32 @@ def step (st : St) (line : String) : St × String :=
     | _, _ => fail "bad-op"
   | ["wf"] =>
     if wfAtB [] st.tree.root then (st, "ok") else fail "model trie not in canonical form"
+  | ["shape"] =>
+    (st, s!"ok h={st.tree.root.height} internal={st.tree.root.internalCount} keys={st.tree.root.toList.length}")
+  | ["needs"] => ({ st with needs := true }, "ok")
   | _ => fail "bad-op"
+
+/-- Node-cache capacity that suffices for the operation on the tree it finds (`none`: the line does
+not write to the tree). -/
+def needOf (st : St) (ws : List String) : Option Nat :=
+  match ws with
+  | ["insert", "0", k, _] => (parseHex k).map (CacheNeed.insert st.tree.root)
+  | ["remove", "0", k] => (parseHex k).map (CacheNeed.remove st.tree.root)
+  | ["remx", "0", k, _] => (parseHex k).map (CacheNeed.remove st.tree.root)
+  | ["applywl", log] => (parseLog log).map (CacheNeed.log st.tree)
+  | ["ocommit"] =>
+    match st.layers with
+    | [L] => some (CacheNeed.overlayCommit st.tree L)
+    | _ => none
+  | _ => none
+
+def step (st : St) (line : String) : St × String :=
+  let r := stepCore st line
+  if st.needs && r.2 == "ok" then
+    match needOf st (words line) with
+    | some n => (r.1, s!"ok need={n}")
+    | none => r
+  else r
 
 def main : IO Unit := loop step {}
 
